@@ -1,11 +1,53 @@
-(* C40 — #[derive(DdsType)] describes and converts types faithfully (PARTIAL: rustc,
-   syn and macro hygiene are exercised through generated programs only).
+(* C40 — #[derive(DdsType)] describes and converts types faithfully.
+   PARTIAL by nature: rustc, syn parsing and macro hygiene are exercised only through
+   generated programs (props/C40.py); the theorems below are about the model of the
+   expansion (Lang/DeriveModel.v), which the correspondence run compares with the real
+   `<T as Type>::TYPE`, create_dynamic_sample and create_sample on every check.
    Property file: statements, `exact`, pins, assumptions. *)
 From Coq Require Import Strings.String.
-From DustDDS Require Import Base.Machine Lang.DeriveModel Lang.DeriveDescProofs.
+From DustDDS Require Import Base.Machine Lang.DeriveModel Lang.DeriveDescProofs Lang.DeriveRtProofs.
 Open Scope Z_scope.
 
-(* ---- member ids ---- *)
+(* ------------------------------------------------------------ round trip *)
+
+(* converting a value to dynamic data and back yields an equal value: every
+   declaration [t] with pairwise distinct member ids, distinct in-range enum
+   discriminants, distinct first union labels and the default variant last
+   ([wf_ty]), without non_serialized members, every value of it *)
+Theorem C40_derive_roundtrip :
+  forall t v d, wf_ty t = true -> no_ns t = true -> has_type t v = true ->
+    to_dyn t v = Ok d -> from_dyn t d = Ok (Some v).
+Proof. exact derive_roundtrip. Qed.
+
+(* with non_serialized members: they come back as their default ([erase_ns]) *)
+Theorem C40_derive_roundtrip_non_serialized :
+  forall t v d, wf_ty t = true -> has_type t v = true ->
+    to_dyn t v = Ok d -> from_dyn t d = Ok (Some (erase_ns t v)).
+Proof. exact derive_roundtrip_gen. Qed.
+
+(* the complete behaviour: create_dynamic_sample panics exactly when an
+   `Option::None` sits in a member that is not skipped as `optional`
+   (data_storage.rs:667, documented), otherwise the round trip succeeds *)
+Theorem C40_roundtrip_complete :
+  forall t v, wf_ty t = true -> is_complex t = true -> has_type t v = true ->
+    roundtrip t v = if exposes_none t v then Panic 1 else Ok (Some (erase_ns t v)).
+Proof. exact derive_roundtrip_total. Qed.
+
+Theorem C40_erase_ns_identity_without_non_serialized :
+  forall t, no_ns t = true -> forall v, has_type t v = true -> erase_ns t v = v.
+Proof. exact erase_ns_id. Qed.
+
+(* the hypotheses of the round trip are necessary (recorded findings) *)
+Theorem C40_duplicate_ids_accepted_and_break_roundtrip :
+  exists d, describe clash_decl = Some d /\ map md_id (td_members d) = [0; 0] /\
+            roundtrip clash_decl (VStruct [VPrim 1; VPrim 2]) = Ok (Some (VStruct [VPrim 2; VPrim 0])).
+Proof. exact ids_clash_accepted. Qed.
+
+Theorem C40_default_variant_not_last_breaks_roundtrip :
+  has_type deffirst (VUnion 1 (Some (VPrim 2))) = true /\ roundtrip deffirst (VUnion 1 (Some (VPrim 2))) = Ok None.
+Proof. exact default_not_last_refuted. Qed.
+
+(* ------------------------------------------------------------ member ids *)
 
 Theorem C40_ids_sequential :
   forall h ms, no_hashid ms = true ->
@@ -23,12 +65,116 @@ Theorem C40_ids_explicit_in_mutable :
     nth_error (struct_ids h ms) k = Some i.
 Proof. exact ids_explicit_mutable. Qed.
 
+(* deviation from the documented attribute: outside Mutable an explicit id is ignored *)
+Theorem C40_ids_explicit_ignored_outside_mutable :
+  forall h ms k m, s_ext h <> Mutable -> nth_error ms k = Some m -> m_hashid m = false ->
+    nth_error (struct_ids h ms) k = Some (Z.of_nat k).
+Proof. exact ids_explicit_ignored. Qed.
+
+(* ids_distinct: un-hashed members have pairwise distinct ids when the structure
+   is not Mutable, or when every explicit id is at least the automatic counter
+   (= larger than the id of the previous un-hashed member) *)
 Theorem C40_ids_distinct :
   forall h ms, no_hashid ms = true -> (s_ext h <> Mutable \/ ids_ascending ms = true) ->
     NoDup (struct_ids h ms).
 Proof. exact ids_distinct_unhashed. Qed.
 
+(* in general (hashed members included) distinctness is exactly the decidable
+   test that [wf_ty] applies; the macro itself applies no test (previous section) *)
+Theorem C40_ids_distinct_decided :
+  forall h ms, nodupb (struct_ids h ms) = true <-> NoDup (struct_ids h ms).
+Proof. exact ids_distinct_decided. Qed.
+
+Theorem C40_ids_clash_automatic_after_explicit :
+  struct_ids clash_h [clash_m "a" (Some 5) false; clash_m "b" None false; clash_m "c" (Some 6) false] = [5; 6; 6].
+Proof. exact ids_clash_auto_after_explicit. Qed.
+
+(* ------------------------------------------- the description reflects the declaration *)
+
+Theorem C40_descriptor_reflects_struct :
+  forall h ms, exists d, describe (TStruct h ms) = Some d /\
+    td_kind d = K_STRUCTURE /\ td_name d = tname (s_rname h) (s_cname h) /\
+    td_ext d = s_ext h /\ td_nested d = s_nested h /\ td_disc d = None /\
+    map md_name (td_members d) = names_from h 0 (map fst ms) /\
+    map md_id (td_members d) = struct_ids h (map fst ms) /\
+    map md_index (td_members d) = map Z.of_nat (seq 0 (length ms)) /\
+    map md_type (td_members d) = map (fun m => sig_of (snd m)) ms /\
+    map md_key (td_members d) = map (fun m => m_key (fst m)) ms /\
+    map md_optional (td_members d) = map (fun m => m_optional (fst m)) ms /\
+    map md_must_understand (td_members d) = map (fun m => m_key (fst m)) ms /\
+    map md_tc (td_members d) = map (fun m => tc_of (m_tc (fst m))) ms.
+Proof. exact describe_struct. Qed.
+
+Theorem C40_descriptor_determines_struct_attributes :
+  forall h ms h' ms', describe (TStruct h ms) = describe (TStruct h' ms') ->
+    tname (s_rname h) (s_cname h) = tname (s_rname h') (s_cname h') /\ s_ext h = s_ext h' /\ s_nested h = s_nested h' /\
+    names_from h 0 (map fst ms) = names_from h' 0 (map fst ms') /\
+    map (fun m => m_key (fst m)) ms = map (fun m => m_key (fst m)) ms' /\
+    map (fun m => m_optional (fst m)) ms = map (fun m => m_optional (fst m)) ms' /\
+    map (fun m => sig_of (snd m)) ms = map (fun m => sig_of (snd m)) ms' /\
+    struct_ids h (map fst ms) = struct_ids h' (map fst ms').
+Proof. exact describe_struct_injective_on_attributes. Qed.
+
+Theorem C40_descriptor_reflects_union :
+  forall h vs, exists dm vm,
+    describe (TUnion h vs) =
+      Some (mkTD K_UNION (tname (u_rname h) (u_cname h)) (u_ext h) (u_nested h)
+                 (Some (Sig (kind_of_prim (u_disc h)) "" [] None)) (dm :: vm)) /\
+    md_name dm = "discriminator"%string /\ md_id dm = 0 /\ md_key dm = u_dkey h /\ md_must_understand dm = true /\
+    md_type dm = Sig (kind_of_prim (u_disc h)) "" [] None /\
+    map md_name vm = map (fun v => v_name (fst v)) vs /\
+    map md_id vm = map Z.of_nat (seq 1 (length vs)) /\
+    map md_default_label vm = map (fun v => v_default (fst v)) vs /\
+    map md_type vm = map (fun v => match snd v with Some t => sig_of t | None => Sig K_NONE "" [] None end) vs /\
+    Forall2 (fun d v => md_label d = map label_i32 (match v_cases (fst v) with [] => [md_id d] | l => l end)) vm vs.
+Proof. exact describe_union. Qed.
+
+Theorem C40_descriptor_reflects_enum :
+  forall e, describe (TEnum e) =
+    Some (mkTD K_ENUM (tname (e_rname e) (e_cname e)) Final (e_nested e)
+               (Some (Sig (kind_of_prim (bits_prim (e_bits e))) "" [] None)) []).
+Proof. exact describe_enum. Qed.
+
+(* the clause "enum literal values are reflected" is FALSE on the code (finding
+   C40-enum-literals-not-published): enumerations that differ only in their literals
+   are published identically *)
+Theorem C40_enum_literals_not_reflected :
+  exists e1 e2, enum_discs e1 <> enum_discs e2 /\ describe (TEnum e1) = describe (TEnum e2).
+Proof. exact enum_literals_refuted. Qed.
+
+(* non-vacuity: a nested declaration with every kind of member meets the hypotheses *)
+Example C40_example_wf :
+  let inner := TStruct (mkS "In" None Mutable true false)
+                 [(mkM "a" (Some 3) true false false false None None, TPrim PU16);
+                  (mkM "b" None false true false false None None, TOpt TString)] in
+  let en := TEnum (mkE "E" None false B8 [("X"%string, Some 2); ("Y"%string, None)]) in
+  let un := TUnion (mkU "U" None Appendable false false PI16)
+              [(mkV "P" [-1; 4] false None, Some inner); (mkV "Q" [] false (Some "f"%string), Some (TVec en));
+               (mkV "R" [] true None, None)] in
+  let t := TStruct (mkS "Out" None Final false true)
+             [(mkM "0" None true false false false None None, un);
+              (mkM "1" None false false false true None None, TArr inner 2)] in
+  let v := VStruct [VUnion 0 (Some (VStruct [VPrim 7; VOpt None]));
+                    VList [VStruct [VPrim 1; VOpt (Some (VStr [104; 105]))]; VStruct [VPrim 0; VOpt None]]] in
+  wf_ty t = true /\ no_ns t = true /\ has_type t v = true /\ exposes_none t v = false /\
+  roundtrip t v = Ok (Some v).
+Proof. vm_compute. repeat split; reflexivity. Qed.
+
+Print Assumptions C40_derive_roundtrip.
+Print Assumptions C40_derive_roundtrip_non_serialized.
+Print Assumptions C40_roundtrip_complete.
+Print Assumptions C40_erase_ns_identity_without_non_serialized.
+Print Assumptions C40_duplicate_ids_accepted_and_break_roundtrip.
+Print Assumptions C40_default_variant_not_last_breaks_roundtrip.
 Print Assumptions C40_ids_sequential.
 Print Assumptions C40_ids_hashed.
 Print Assumptions C40_ids_explicit_in_mutable.
+Print Assumptions C40_ids_explicit_ignored_outside_mutable.
 Print Assumptions C40_ids_distinct.
+Print Assumptions C40_ids_distinct_decided.
+Print Assumptions C40_ids_clash_automatic_after_explicit.
+Print Assumptions C40_descriptor_reflects_struct.
+Print Assumptions C40_descriptor_determines_struct_attributes.
+Print Assumptions C40_descriptor_reflects_union.
+Print Assumptions C40_descriptor_reflects_enum.
+Print Assumptions C40_enum_literals_not_reflected.
